@@ -587,6 +587,11 @@ func fieldOptsOverride(opts *options, fieldName string, idx int) (*options, Erro
 		return opts, nil
 	}
 	cfgHandling, child, ok := opts.fieldHandlingTree.fieldHandling(fieldName, idx)
+	if !ok && child == nil && (idx >= 0 || fieldName == "*") {
+		// A list level without an entry of its own keeps the names configured for
+		// its elements, whether or not a '**' wildcard is configured as well.
+		return opts, nil
+	}
 	child, err := includeWildcard(child, opts.fieldHandlingTree)
 	if err != nil {
 		return nil, err
